@@ -359,7 +359,13 @@ def err_locfresh(ctx: Ctx) -> RuleResult:
             v = getattr(st, "value", None)
             mutable = isinstance(v, (ast.Dict, ast.List, ast.Set, ast.DictComp, ast.ListComp)) or \
                 (isinstance(v, ast.Call) and (dotted(v.func) or "").split(".")[-1] in ("dict", "list", "set", "defaultdict", "OrderedDict", "WeakKeyDictionary", "lru_cache"))
-            if mutable:
+            # a container that is only read (a constant table of file names to skip, ...) carries nothing from one call to the next
+            written = any((isinstance(w, (ast.Assign, ast.AugAssign, ast.Delete)) and any(
+                isinstance(t, ast.Subscript) and dotted(t.value) == n.id for t in (w.targets if isinstance(w, (ast.Assign, ast.Delete)) else [w.target])))
+                or (isinstance(w, ast.Call) and isinstance(w.func, ast.Attribute) and dotted(w.func.value) == n.id
+                    and w.func.attr in ("setdefault", "update", "append", "add", "pop", "clear", "extend", "insert", "__setitem__"))
+                for w in iter_own_nodes(f.node))
+            if mutable and written:
                 hits.append(n)
     cached = [d for d in f.node.decorator_list if "cache" in norm_src(d)]
     r.ob(not hits and not cached, {"module-level containers used by get_call_location": sorted({h.id for h in hits}), "caching decorators": [norm_src(d) for d in cached]})
